@@ -235,6 +235,7 @@ func checkC14(r *Run) propMeta {
 	bitmaps := &storedSetAnalysis{r: r, p: p, cg: cg, retStore: map[*types.Func]string{}, busy: map[*types.Func]bool{}, plainFields: true}
 	checkStorageAliasing(r, "C14-R4-stored-set-readonly", newAliasAnalysis(r, cg, p), bitmaps, roots)
 	checkInPlaceReuse(r, "C14-R4-stored-set-readonly", p)
+	checkDerivedGraphKeepsNodes(r, p)
 	r.Floor("C14-R4-stored-set-readonly", 8)
 	r.Floor("C14-R1-direction-exhaustive", 6)
 	r.Floor("C14-R2-role-consistency", 10)
@@ -465,4 +466,100 @@ func addsBothEndpoints(info *types.Info, list []ast.Stmt) bool {
 		}
 	}
 	return seen["End"] && seen["Start"]
+}
+
+// checkDerivedGraphKeepsNodes (R5): a graph derived from another (Normalize) has the same node set under the ID
+// translation, including nodes without any edge.  Edges only mention their endpoints, so the derived graph's node set
+// must be filled from an iteration over the source's nodes (EachNode / the node bitmap), not only as a side effect of
+// adding edges.
+func checkDerivedGraphKeepsNodes(r *Run, p *packages.Package) {
+	const rule = "C14-R5-derived-node-set"
+	info := p.TypesInfo
+	n := 0
+	for _, f := range p.Syntax {
+		for _, d := range f.Decls {
+			fd, ok := d.(*ast.FuncDecl)
+			if !ok || fd.Body == nil || fd.Recv == nil || fd.Name.Name != "Normalize" || len(fd.Recv.List[0].Names) == 0 {
+				continue
+			}
+			n++
+			recv := info.Defs[fd.Recv.List[0].Names[0]]
+			fills := false
+			recvNamed := namedOf(recv.Type())
+			// does the body write node storage of a graph other than the receiver?
+			writesDerived := func(body ast.Node) bool {
+				w := false
+				ast.Inspect(body, func(m ast.Node) bool {
+					switch y := m.(type) {
+					case *ast.CallExpr:
+						if s2, ok := y.Fun.(*ast.SelectorExpr); ok {
+							switch s2.Sel.Name {
+							case "AddNode":
+								if id, ok := ast.Unparen(s2.X).(*ast.Ident); ok && info.Uses[id] != recv {
+									w = true
+								}
+							case "Add":
+								if in2, ok := ast.Unparen(s2.X).(*ast.SelectorExpr); ok {
+									if id, ok := ast.Unparen(in2.X).(*ast.Ident); ok && info.Uses[id] != recv && namedOf(info.TypeOf(id)) == recvNamed {
+										w = true
+									}
+								}
+							}
+						}
+					case *ast.AssignStmt:
+						for _, l := range y.Lhs {
+							if ix, ok := ast.Unparen(l).(*ast.IndexExpr); ok {
+								if in2, ok := ast.Unparen(ix.X).(*ast.SelectorExpr); ok {
+									if id, ok := ast.Unparen(in2.X).(*ast.Ident); ok && info.Uses[id] != recv && namedOf(info.TypeOf(id)) == recvNamed && sideOfName(in2.Sel.Name) == "" {
+										w = true
+									}
+								}
+							}
+						}
+					}
+					return true
+				})
+				return w
+			}
+			ast.Inspect(fd.Body, func(x ast.Node) bool {
+				switch it := x.(type) {
+				case *ast.CallExpr:
+					sel, ok := it.Fun.(*ast.SelectorExpr)
+					if !ok || (sel.Sel.Name != "EachNode" && sel.Sel.Name != "Each") || len(it.Args) != 1 {
+						return true
+					}
+					base := ast.Unparen(sel.X)
+					if inner, ok := base.(*ast.SelectorExpr); ok {
+						if sideOfName(inner.Sel.Name) != "" {
+							return true // an adjacency side, not the node set
+						}
+						base = ast.Unparen(inner.X)
+					}
+					if id, ok := base.(*ast.Ident); !ok || info.Uses[id] != recv {
+						return true
+					}
+					if fl, ok := it.Args[0].(*ast.FuncLit); ok && writesDerived(fl.Body) {
+						fills = true
+					}
+				case *ast.RangeStmt:
+					// for … := range s.<node table>
+					if sel, ok := ast.Unparen(it.X).(*ast.SelectorExpr); ok && sideOfName(sel.Sel.Name) == "" {
+						if id, ok := ast.Unparen(sel.X).(*ast.Ident); ok && info.Uses[id] == recv && writesDerived(it.Body) {
+							fills = true
+						}
+					}
+				}
+				return true
+			})
+			construct := funcDeclName(fd)
+			if fills {
+				r.Pass(rule, construct, fd.Pos(), "the derived graph's node set is filled from the iteration over the source's nodes")
+			} else {
+				r.Fail(rule, construct, fd.Pos(), "the derived graph gets its nodes only from the edges it is given: nodes without an incident edge vanish from the normalised graph while the returned index still lists them, so NumNodes and the node set disagree with the source")
+			}
+		}
+	}
+	if n == 0 {
+		r.Undecide("C14-R5: no Normalize method found in package container")
+	}
 }
